@@ -44,6 +44,23 @@ fn vec_extend<E>(v: &mut Vec<E>, w: Vec<E>) ensures final(v)@ == old(v)@ + w@ { 
 fn ll_any_has_content<T>(l: &LinkedList<RenderLine<T>>) -> (r: bool)
     ensures r == exists|i: int| 0 <= i < l@.len() && #[trigger] rl_has_content(l@[i]),
 { unimplemented!() }
+// R7: the `prefixes` iterator of append_subrender (`repeat(p)` or `once(p).chain(repeat(q))` at every call site): an infinite stream
+#[verifier::external_body] struct Prefixes { x: u8 }
+impl Prefixes {
+    spec fn at(&self, k: int) -> Seq<char>;
+    spec fn pos(&self) -> int;
+    #[verifier::external_body]
+    fn next_prefix(&mut self) -> (r: &'static str)
+        ensures r@ == old(self).at(old(self).pos()), final(self).pos() == old(self).pos() + 1, forall|k: int| final(self).at(k) == old(self).at(k),
+    { unimplemented!() }
+}
+#[verifier::external_body]
+fn ll_into_vec<T>(l: LinkedList<T>) -> (r: Vec<T>) ensures r@ == l@ { unimplemented!() }
+#[verifier::external_body]
+fn border_to_string<T>(b: &BorderHoriz<T>) -> (r: String) ensures sw(r@) == b.w, str_some(r@) { unimplemented!() }
+// A5/A2: a short string is narrower than 2^33 columns (each character is at most 2 columns wide)
+#[verifier::external_body]
+proof fn axiom_short_width(s: Seq<char>) requires short(s) ensures sw(s) <= 0x2_0000_0000 {}
 spec fn all_ws(s: Seq<char>) -> bool;
 #[verifier::external_body]
 fn str_all_whitespace(s: &str) -> (r: bool) ensures r == all_ws(s@) { s.chars().all(char::is_whitespace) }
@@ -283,7 +300,16 @@ proof fn lemma_flat_empty<T>() ensures flat(Seq::<TaggedLineElement<T>>::empty()
 spec fn wrap_width_spec(ww: Option<usize>, width: usize) -> usize {
     match ww { Some(m) => { let m1 = if m >= 1 { m } else { 1usize }; if m1 <= width { m1 } else { width } }, None => width }
 }
-spec fn rl_ok<T>(l: RenderLine<T>, width: usize, allow: bool) -> bool { l matches RenderLine::Text(t) ==> t.wf() && fits(t, width, allow) }
+// a finished line of a renderer: at most `width` columns (C02) unless width overflow has been allowed (C11)
+spec fn rl_ok<T>(l: RenderLine<T>, width: usize, allow: bool) -> bool {
+    match l {
+        RenderLine::Text(t) => t.wf() && (t.len <= width || allow),
+        // a table rule is no wider than the renderer it was drawn in (A6: column allocation, unit TB)
+        RenderLine::Line(b) => (b.w <= width || allow),
+    }
+}
+// a line produced by a block of this renderer: at most the renderer's width, or one over-wide character
+spec fn short_line<T>(l: RenderLine<T>, w: usize) -> bool { match l { RenderLine::Text(t) => t.len <= w || t.len <= 2, RenderLine::Line(_) => false } }
 spec fn lines_ok<T>(ls: Seq<RenderLine<T>>, width: usize, allow: bool) -> bool { forall|i: int| 0 <= i < ls.len() ==> rl_ok(#[trigger] ls[i], width, allow) }
 impl<D: TextDecorator> SubRenderer<D> {
     // representation invariant of a sub-renderer (C02 lives here: every finished line fits the renderer's width)
@@ -422,6 +448,7 @@ impl<D: TextDecorator> SubRenderer<D> {
             old(self).wrapping.is_none() ==> r.is_ok() && final(self).lines@ == old(self).lines@ && final(self).pending_frags@ == old(self).pending_frags@, //@w @C03 #no_block_noop
             old(self).options.allow_width_overflow ==> r.is_ok(), //@w @C11 #flush_wrapping_overflow_ok
             final(self).lines@.len() >= old(self).lines@.len() && final(self).lines@.take(old(self).lines@.len() as int) =~= old(self).lines@, //@w @C03 #flush_wrapping_keeps_lines
+            forall|i: int| old(self).lines@.len() <= i < final(self).lines@.len() ==> short_line(#[trigger] final(self).lines@[i], old(self).width), //@w @C02 @C11 #flushed_lines_fit_block
             // markers recorded after the last word of the block are not lost: they become pending for the next text line (C14) //@w
             r.is_ok() && (old(self).wrapping matches Some(w) && no_str(w.word.v@)) ==> //@w @C14 #trailing_markers_become_pending
                 final(self).pending_frags@.len() >= (old(self).wrapping->Some_0).word.v@.len() //@w
@@ -441,8 +468,24 @@ impl<D: TextDecorator> SubRenderer<D> {
                     forall|i: int| 0 <= i < ls@.len() ==> (#[trigger] ls@[i]).wf() && fits(ls@[i], w1.width, w1.allow_overflow), //@w
                     w1.width <= self.width && w1.allow_overflow == self.options.allow_width_overflow && self.width <= 0x1000_0000_0000_0000, //@w
                     self.lines@.len() >= old(self).lines@.len() && self.lines@.take(old(self).lines@.len() as int) =~= old(self).lines@, //@w
+                    forall|i: int| old(self).lines@.len() <= i < self.lines@.len() ==> short_line(#[trigger] self.lines@[i], self.width), //@w
             {
+                proof { assert(fits(ls@[it.index@], w1.width, w1.allow_overflow)); } //@w
+                let ghost before = self.lines@; //@w
+                let ghost lc = l; //@w
+                proof { assert(lc == ls@[it.index@]); assert(lc.len <= self.width || lc.len <= 2); } //@w
                 self.add_line(RenderLine::Text(l));
+                proof { //@w[
+                    assert(self.lines@.drop_last() == before);
+                    assert forall|i: int| 0 <= i < before.len() implies self.lines@[i] == before[i] by { assert(self.lines@.drop_last()[i] == self.lines@[i]); }
+                    assert(self.lines@.last() matches RenderLine::Text(t) && t.len == lc.len);
+                    assert(self.lines@.last() is Text);
+                    assert(self.lines@.last() == self.lines@[before.len() as int]);
+                    assert(short_line(self.lines@[before.len() as int], self.width));
+                    assert forall|i: int| old(self).lines@.len() <= i < self.lines@.len() implies short_line(#[trigger] self.lines@[i], self.width) by {
+                        if i < before.len() { assert(self.lines@[i] == before[i]); assert(short_line(before[i], self.width)); }
+                    }
+                } //@w]
             }
 
             vec_extend(&mut self.pending_frags, frags);
@@ -666,6 +709,113 @@ impl<D: TextDecorator> SubRenderer<D> {
         ensures final(self).at_block_end && final(self).ws_stack@ == old(self).ws_stack@ && final(self).pre_depth == old(self).pre_depth && final(self).ann_stack@ == old(self).ann_stack@ && final(self).text_filter_stack@ == old(self).text_filter_stack@ && final(self).same_config(old(self)) && final(self).wrapping == old(self).wrapping && final(self).lines@ == old(self).lines@ && final(self).pending_frags@ == old(self).pending_frags@, //@w @C13 #end_block
     {
         self.at_block_end = true;
+    }
+//@end
+//@item src/render/text_renderer.rs :: impl SubRenderer :: fn into_lines
+//@sub /-> Result<LinkedList<RenderLine<Vec<D::Annotation>>>>/ ==> -> (r: Result<LinkedList<RenderLine<Vec<D::Annotation>>>>)
+//@rule R19
+//@auto C01 C02 C03
+    fn into_lines(self) -> (r: Result<LinkedList<RenderLine<Vec<D::Annotation>>>>)
+        requires self.sr_inv(), tag_ok::<Vec<D::Annotation>>(), //@w
+        ensures //@w
+            self.options.allow_width_overflow ==> r.is_ok(), //@w @C11 #into_lines_overflow_ok
+            // every line a renderer hands over fits its width (C02) //@w
+            r matches Ok(ls) ==> lines_ok(ls@, self.width, self.options.allow_width_overflow), //@w @C02 #renderer_lines_fit
+            r matches Ok(ls) ==> ls@.len() >= self.lines@.len() && ls@.take(self.lines@.len() as int) =~= self.lines@, //@w @C03 #into_lines_keeps_lines
+            r matches Ok(ls) ==> forall|i: int| self.lines@.len() <= i < ls@.len() ==> short_line(#[trigger] ls@[i], self.width), //@w @C02 @C11 #block_lines_fit_block
+    { let mut this = self;
+        this.flush_wrapping()?;
+        Ok(this.lines)
+    }
+//@end
+//@item src/render/text_renderer.rs :: impl Renderer for SubRenderer :: fn append_subrender
+//@sub /-> Result<\(\)>/ ==> -> (r: Result<()>)
+//@sub /fn append_subrender<'a, I>\(&mut self, other: Self, prefixes: I\)/ ==> fn append_subrender(&mut self, other: Self, prefixes0: Prefixes)
+//@sub /(?s)\n    where\n        I: Iterator<Item = &'a str>,/ ==> 
+//@sub /(?s)self\.extend_lines\(\s*other\s*\.into_lines\(\)\?\s*\.into_iter\(\)\s*\.zip\(prefixes\)\s*\.map\(\|\(line, prefix\)\| match line \{/ ==> let mut prefixes = prefixes0;\n        let olines = ll_into_vec(other.into_lines()?);\n        for line in it: olines\n        {\n            let prefix = prefixes.next_prefix();\n            let newline = match line {
+//@sub /(?s)\n                \}\),\n        \);/ ==> \n                };\n            self.add_line(newline);\n        }
+//@sub 3 /prefix\.to_string\(\)/ ==> str_to_string(prefix)
+//@sub /l\.to_string\(\)/ ==> border_to_string(&l)
+//@sub /RenderLine::Text\(mut tline\) => \{/ ==> RenderLine::Text(tline0) => {\n                        let mut tline = tline0;
+//@auto C01 C07 C02
+    fn append_subrender(&mut self, other: Self, prefixes0: Prefixes) -> (r: Result<()>)
+        requires old(self).sr_inv(), other.sr_inv(), tag_ok::<Vec<D::Annotation>>(), //@w
+            other.options.allow_width_overflow == old(self).options.allow_width_overflow, //@w
+            // A5 (boundary): finished lines of the nested renderer are far from overflowing usize //@w
+            forall|i: int| 0 <= i < other.lines@.len() ==> (match #[trigger] other.lines@[i] { RenderLine::Text(t) => t.len <= 0x2000_0000_0000_0000, RenderLine::Line(b) => b.w <= 0x2000_0000_0000_0000 }), //@w
+            // boundary (A6, established by the width_minus contracts of unit RN): prefix + sub-renderer width fit the parent, //@w
+            // unless overflow is allowed; A5: prefixes are short //@w
+            forall|k: int| k >= prefixes0.pos() ==> short(#[trigger] prefixes0.at(k)) && str_some(prefixes0.at(k)) && (sw(prefixes0.at(k)) + other.width <= old(self).width || old(self).options.allow_width_overflow), //@w
+        ensures //@w
+            r.is_ok() ==> final(self).sr_inv(), //@w @C02 #append_keeps_lines_within_width
+            final(self).same_stacks(old(self)) && final(self).same_config(old(self)), //@w @C09 #append_frame
+            old(self).options.allow_width_overflow ==> r.is_ok(), //@w @C11
+            final(self).lines@.len() >= old(self).lines@.len() && final(self).lines@.take(old(self).lines@.len() as int) =~= old(self).lines@, //@w @C03 #append_keeps_lines
+    {
+        use self::TaggedLineElement::Str;
+
+        self.flush_wrapping()?;
+        let tag = self.ann_stack.clone();
+
+        let mut prefixes = prefixes0;
+        let olines = ll_into_vec(other.into_lines()?);
+        proof { //@w[
+            assert forall|i: int| 0 <= i < olines@.len() implies (match #[trigger] olines@[i] { RenderLine::Text(t) => t.len <= 0x2000_0000_0000_0000, RenderLine::Line(b) => b.w <= 0x2000_0000_0000_0000 }) by {
+                if i < other.lines@.len() { assert(olines@.take(other.lines@.len() as int)[i] == olines@[i]); assert(olines@[i] == other.lines@[i]); } else { assert(short_line(olines@[i], other.width)); }
+            }
+        } //@w]
+        for line in it: olines
+            invariant //@w[
+                it.seq() == olines@, tag_ok::<Vec<D::Annotation>>(), self.sr_inv(),
+                self.same_stacks(old(self)) && self.same_config(old(self)), tag@ == old(self).ann_stack@,
+                lines_ok(olines@, other.width, other.options.allow_width_overflow),
+                forall|i: int| 0 <= i < olines@.len() ==> (match #[trigger] olines@[i] { RenderLine::Text(t) => t.len <= 0x2000_0000_0000_0000, RenderLine::Line(b) => b.w <= 0x2000_0000_0000_0000 }),
+                other.options.allow_width_overflow == self.options.allow_width_overflow, other.width <= 0x1000_0000_0000_0000,
+                prefixes.pos() >= prefixes0.pos(), forall|k: int| prefixes.at(k) == prefixes0.at(k),
+                forall|k: int| k >= prefixes0.pos() ==> short(#[trigger] prefixes0.at(k)) && str_some(prefixes0.at(k)) && (sw(prefixes0.at(k)) + other.width <= self.width || self.options.allow_width_overflow),
+                self.lines@.len() >= old(self).lines@.len() && self.lines@.take(old(self).lines@.len() as int) =~= old(self).lines@,
+            //@w]
+        {
+            let ghost pk = prefixes.pos(); //@w
+            proof { //@w[
+                assert(rl_ok(olines@[it.index@], other.width, other.options.allow_width_overflow));
+                assert(prefixes.at(pk) == prefixes0.at(pk));
+                assert(short(prefixes0.at(pk)) && str_some(prefixes0.at(pk)) && (sw(prefixes0.at(pk)) + other.width <= self.width || self.options.allow_width_overflow));
+                axiom_short_width(prefixes0.at(pk));
+            } //@w]
+            let prefix = prefixes.next_prefix();
+            let newline = match line {
+                    RenderLine::Text(tline0) => {
+                        let mut tline = tline0;
+                        if !prefix.is_empty() {
+                            tline.insert_front(TaggedString {
+                                s: str_to_string(prefix),
+                                tag: tag.clone(),
+                            });
+                        }
+                        RenderLine::Text(tline)
+                    }
+                    RenderLine::Line(l) => {
+                        let mut tline = TaggedLine::new();
+                        tline.push(Str(TaggedString {
+                            s: str_to_string(prefix),
+                            tag: tag.clone(),
+                        }));
+                        tline.push(Str(TaggedString {
+                            s: border_to_string(&l),
+                            tag: tag.clone(),
+                        }));
+                        RenderLine::Text(tline)
+                    }
+                };
+            // every line of the nested block gets its prefix in front (the quote mark / heading marker on every line, the //@w
+            // bullet or number then blank indentation), tagged with the enclosing annotations (C07, C09) //@w
+            assert(newline matches RenderLine::Text(t) && t.wf() && t.len == sw(prefix@) + (match olines@[it.index@] { RenderLine::Text(o) => o.len as int, RenderLine::Line(b) => b.w as int })); //@w @C07 @C02 #prefixed_line_width
+            assert(olines@[it.index@] matches RenderLine::Text(o) ==> (newline matches RenderLine::Text(t) && flat(t.v@) =~= flat_str(prefix@, tag) + flat(o.v@))); //@w @C07 @C09 @C03 #every_line_gets_its_prefix
+            self.add_line(newline);
+        }
+
+        Ok(())
     }
 //@end
 //@item src/render/text_renderer.rs :: impl SubRenderer :: fn ws_mode
